@@ -12,7 +12,9 @@ NoReq == [rid |-> 0, s |-> "none", togo |-> 0]
 Init == /\ queue \in UNION {[1..n -> Scripts] : n \in 1..MaxQ}
         /\ inflight = NoReq /\ hops = 0 /\ host = "A" /\ wire = <<>> /\ responses = <<>> /\ outstanding = 0 /\ dead = FALSE
 Rid == Len(responses) + 1
-Redirs(s) == CASE s \in {"redir-rel", "redir-abs", "redir-other"} -> 1 [] s = "redir-2" -> 2
+\* "redir-2bad": one hop that is followed, then a redirect whose Location cannot be followed (no host): the entry is the
+\* second redirect response, in error, with the history of the hop that was followed
+Redirs(s) == CASE s \in {"redir-rel", "redir-abs", "redir-other", "redir-2bad"} -> 1 [] s = "redir-2" -> 2
                [] s = "redir-down" -> (IF Secure THEN 0 ELSE 1) [] OTHER -> 0
 \* the client takes the next request only when it is not waiting for a response
 Send == /\ inflight = NoReq /\ ~dead /\ Rid <= Len(queue)
@@ -30,7 +32,7 @@ Answer ==
         /\ UNCHANGED <<responses, outstanding, dead, queue>>
      ELSE
         /\ responses' = Append(responses, [rid |-> inflight.rid,
-                                           kind |-> IF s \in {"close-before", "close-during"} \/ (s = "redir-down" /\ Secure) THEN "errored" ELSE "ok",
+                                           kind |-> IF s \in {"close-before", "close-during", "redir-2bad"} \/ (s = "redir-down" /\ Secure) THEN "errored" ELSE "ok",
                                            hops |-> hops])
         /\ dead' = (s \in {"close-before", "close-during"})
         /\ inflight' = NoReq /\ outstanding' = outstanding - 1
@@ -45,7 +47,7 @@ Done == inflight = NoReq /\ (dead \/ Len(responses) = Len(queue))
 OneAtATime == outstanding <= 1
 FifoOneToOne == \A i \in DOMAIN responses : responses[i].rid = i
 WireInQueueOrder == \A i, j \in DOMAIN wire : i < j => wire[i].rid <= wire[j].rid
-RedirectTransparent == \A i \in DOMAIN responses : responses[i].kind = "ok" => responses[i].hops = Redirs(queue[i])
+RedirectTransparent == \A i \in DOMAIN responses : (responses[i].kind = "ok" \/ queue[i] = "redir-2bad") => responses[i].hops = Redirs(queue[i])
 NoDowngrade == Secure => \A i \in DOMAIN wire : (queue[wire[i].rid] = "redir-down") => wire[i].hop = 0
 EveryRequestAnswered == (Done /\ OkQueue) => Len(responses) = Len(queue)
 ====
